@@ -143,6 +143,12 @@ def disorder(rng: Random, lines: list[tuple[str, str]], meta: dict[str, Any]) ->
         at = rng.randrange(len(out) + 1)
         out[at:at] = block
         moves += 1
+    # a UFH controller's 0005 ('which circuits are in use') and 000C ('which zone a circuit serves') supersede each
+    # other by meaning - the later one wins - so among themselves they stay in timestamp order (what a gateway
+    # concludes from them in another order is a different history, not a different view of the same one)
+    pos = [i for i, (_, f) in enumerate(out) if (q := split(f)) and q["addrs"][:2] == "02" and q["code"] in ("0005", "000C")]
+    for i, item in zip(pos, sorted((out[i] for i in pos), key=lambda x: x[0])):
+        out[i] = item
     meta["ops"] = list(meta.get("ops", [])) + ["disorder"]
     meta["disordered_blocks"] = moves
     return out
